@@ -3,6 +3,7 @@ package v2
 import (
 	"errors"
 	"io"
+	"math"
 	"os"
 	"sync"
 )
@@ -148,8 +149,25 @@ func (fw *FileWriter) openExistingFile() error {
 	return nil
 }
 
+// validateEntry rejects entries the on-disk format cannot represent: the key
+// length is stored in 16 bits and an empty key makes the whole block unreadable.
+// Storing such an entry would silently corrupt the file for every other key.
+func validateEntry(entry *Entry) error {
+	if entry.Key == "" {
+		return ErrEmptyKey
+	}
+	if len(entry.Key) > math.MaxUint16 {
+		return ErrKeyTooLong
+	}
+	return nil
+}
+
 // WriteEntry adds an entry to the buffer and flushes if necessary
 func (fw *FileWriter) WriteEntry(entry Entry) error {
+	if err := validateEntry(&entry); err != nil {
+		return err
+	}
+
 	fw.mu.Lock()
 	defer fw.mu.Unlock()
 
@@ -167,6 +185,12 @@ func (fw *FileWriter) WriteEntry(entry Entry) error {
 
 // WriteEntries adds multiple entries to the buffer
 func (fw *FileWriter) WriteEntries(entries []Entry) error {
+	for i := range entries {
+		if err := validateEntry(&entries[i]); err != nil {
+			return err
+		}
+	}
+
 	fw.mu.Lock()
 	defer fw.mu.Unlock()
 
